@@ -570,16 +570,25 @@ fn check_inner(prop: &str, sc: &Scenario, rr: &RunResult) -> Vec<Violation> {
         "C09" => c09(sc, rr),
         "C10" => c10(sc, rr),
         "C11" => c11(sc, rr),
-        "C06" => crate::oracle2::c06(sc, rr),
-        "C12" => crate::oracle2::c12(sc, rr),
-        "C13" => crate::oracle2::c13(sc, rr),
-        "C14" => crate::oracle2::c14(sc, rr),
+        "C06" => {
+            // a late element makes a downstream event-time window panic: the history up to the
+            // crash shows the root cause, which is reported in preference to the crash
+            let v = crate::oracle2::c06(sc, rr);
+            if v.is_empty() {
+                termination_as("C06", sc, rr)
+            } else {
+                v
+            }
+        }
+        "C12" => with_termination("C12", sc, rr, crate::oracle2::c12),
+        "C13" => with_termination("C13", sc, rr, crate::oracle2::c13),
+        "C14" => with_termination("C14", sc, rr, crate::oracle2::c14),
         "C15" => crate::oracle3::c15(sc, rr),
         "C18" => crate::oracle3::c18(sc, rr),
         "C19" => crate::oracle3::c19(sc, rr),
         "C20" => crate::oracle3::c20(sc, rr),
-        "C16" => crate::oracle2::c16(sc, rr),
-        "C17" => crate::oracle2::c17(sc, rr),
+        "C16" => with_termination("C16", sc, rr, crate::oracle2::c16),
+        "C17" => with_termination("C17", sc, rr, crate::oracle2::c17),
         _ => vec![],
     }
 }
@@ -705,7 +714,7 @@ pub fn probe_expectations(prop: &str, sc: &Scenario, rr: &RunResult, reference: 
 // C10 loops, C11 side inputs
 // ------------------------------------------------------------------------------------------
 
-fn termination_as(prop: &str, sc: &Scenario, rr: &RunResult) -> Vec<Violation> {
+pub fn termination_as(prop: &str, sc: &Scenario, rr: &RunResult) -> Vec<Violation> {
     if rr.outcome.verdict == Verdict::Completed && !rr.rec.hosts.iter().any(|h| h.panicked.is_some()) {
         return vec![];
     }
@@ -1262,4 +1271,15 @@ pub fn flush_after_all_data(sc: &Scenario, rr: &RunResult) -> Vec<Violation> {
         }
     }
     out
+}
+
+
+/// a job that crashes or hangs has lost everything: report that first (with the classes of C04,
+/// so that the same known findings apply), then the property's own oracle
+pub fn with_termination(prop: &str, sc: &Scenario, rr: &RunResult, f: fn(&Scenario, &RunResult) -> Vec<Violation>) -> Vec<Violation> {
+    let t = termination_as(prop, sc, rr);
+    if !t.is_empty() {
+        return t;
+    }
+    f(sc, rr)
 }
